@@ -7,6 +7,7 @@ CONSTANTS
   Palettes = {0}
   Kinds = {}
   RestartResizes = FALSE
+  IgnoreModes = {FALSE}
   AnonModes = {FALSE}
   Faults = TRUE
   AllowWindow = FALSE
